@@ -41,6 +41,11 @@ impl<'a> Scripted<'a> {
     pub fn new(data: &'a [u8], script: &'a [Ans]) -> Self {
         Scripted { data, pos: 0, script, call: 0, ops: vec![], reads: vec![], budget: 10_000 }
     }
+
+    /// a reader that has already been read up to `pos` (the frame to decode starts there)
+    pub fn new_at(data: &'a [u8], pos: usize, script: &'a [Ans]) -> Self {
+        Scripted { data, pos, script, call: 0, ops: vec![], reads: vec![], budget: 10_000 }
+    }
 }
 
 impl Read for Scripted<'_> {
@@ -96,10 +101,15 @@ fn outcome(r: Result<Frame, deku::DekuError>) -> Outcome {
 
 /// Decode through the scripted reader; returns (outcome, requested sizes of the read calls, op log).
 fn run_script(bytes: &[u8], script: &[Ans]) -> Result<(Outcome, Vec<usize>, Vec<Op>), String> {
-    let b = bytes.to_vec();
+    run_script_at(bytes, 0, script)
+}
+
+/// `stream[offset..]` is the frame; the reader starts at `offset`
+fn run_script_at(stream: &[u8], offset: usize, script: &[Ans]) -> Result<(Outcome, Vec<usize>, Vec<Op>), String> {
+    let b = stream.to_vec();
     let sc = script.to_vec();
     guarded(move || {
-        let mut r = Scripted::new(&b, &sc);
+        let mut r = Scripted::new_at(&b, offset, &sc);
         let res = Frame::from_reader(&mut r);
         (outcome(res), r.reads.clone(), r.ops.clone())
     })
@@ -384,10 +394,55 @@ pub fn run(tier: Tier) -> i32 {
         }
     }
     run.add("purity_triples", triples);
+
+    // readers that are not at position 0: the frame follows other bytes in the same stream (a previous frame,
+    // a header). Decoding must depend only on the bytes from the current position on.
+    let prefixes: Vec<Vec<u8>> = vec![
+        vec![0x42],
+        crate::enc::es_frame(17, 5, 0x40621d, crate::enc::me_pos_latlon(11, 38000, false, 52.2572, 3.9194)),
+        crate::enc::df11_frame(5, 0xabcdef, 0),
+        vec![0xff; 16],
+    ];
+    let mut offset_cases = 0u64;
+    for (name, frame) in &subj {
+        let want = outcome(Frame::from_bytes(frame));
+        for pre in &prefixes {
+            let mut stream = pre.clone();
+            stream.extend_from_slice(frame);
+            let r0 = run_script_at(&stream, pre.len(), &[]).map(|x| x.1.len()).unwrap_or(0);
+            let mut scripts: Vec<Vec<Ans>> = vec![vec![], vec![Ans::Short(1); 64]];
+            for at in 0..r0 {
+                let mut sc = vec![Ans::Full; at];
+                sc.push(Ans::Interrupted);
+                scripts.push(sc);
+            }
+            for sc in scripts {
+                offset_cases += 1;
+                match run_script_at(&stream, pre.len(), &sc) {
+                    Ok((got, _, _)) if got == want => {}
+                    Ok((got, _, _)) => run.violation(Violation {
+                        oracle: "reader-independence".into(),
+                        class: format!("{}:reader-at-offset", name.split('/').next().unwrap_or("?")),
+                        input: format!("frame={} offset={} prefix={} script={}", hex(frame), pre.len(), hex(pre), script_str(&sc)),
+                        expected: format!("{want:?}").chars().take(200).collect(),
+                        observed: format!("{got:?}").chars().take(200).collect(),
+                    }),
+                    Err(p) => run.violation(Violation {
+                        oracle: "reader-independence".into(),
+                        class: "reader-at-offset:panic".into(),
+                        input: format!("frame={} offset={} prefix={} script={}", hex(frame), pre.len(), hex(pre), script_str(&sc)),
+                        expected: format!("{want:?}").chars().take(200).collect(),
+                        observed: format!("panic: {p}"),
+                    }),
+                }
+            }
+        }
+    }
+    run.add("reader_at_offset_cases", offset_cases);
     run.sample(json!({"frame": hex(&subj[0].1), "script": "I,F,F,I,F", "meaning": "Interrupted before the 1st and 3rd original read call"}));
     run.sample(json!({"frame": hex(&subj[subj.len() / 2].1), "script": "S1,S1,S1,...", "meaning": "one byte per read call"}));
     let cov = json!({
-        "evaluations": schedules + triples * 3,
+        "evaluations": schedules + triples * 3 + offset_cases,
         "distinct_nontrivial": distinct,
         "rule": "per distinct read/seek pattern (one representative frame each, exact length, +3 trailing bytes, 1 byte short): all subsets of read calls preceded by a transient Interrupted (thorough; quick: <= 2), the all-1-byte schedule, every split size of every multi-byte request, all schedules with <= 2 (quick) / <= 3 (thorough) deviations from {Short(1), Short(k-1), Interrupted}, Interrupted twice at every call; purity: all ordered triples (a,b,a), (a,a,b). distinct = distinct (read, seek) operation logs observed",
         "exhaustive": true,
@@ -418,8 +473,16 @@ pub fn replay(input: &str) -> i32 {
     }
     let bytes = crate::bits::unhex(&frame);
     let sc = parse_script(&script);
+    let mut prefix = vec![];
+    for kv in input.split_whitespace() {
+        if let Some(v) = kv.strip_prefix("prefix=") {
+            prefix = crate::bits::unhex(v);
+        }
+    }
     println!("from_bytes : {:?}", outcome(Frame::from_bytes(&bytes)));
-    match run_script(&bytes, &sc) {
+    let mut stream = prefix.clone();
+    stream.extend_from_slice(&bytes);
+    match run_script_at(&stream, prefix.len(), &sc) {
         Ok((o, _reads, ops)) => {
             println!("from_reader: {o:?}");
             println!("operations : {ops:?}");
